@@ -410,6 +410,10 @@ impl<'w, 'r, 'gc> Cb<'w, 'r, 'gc> {
                 src.next(|| me.view_owned())
             };
             let Some(op) = op else { break };
+            if self.w.stream.is_some() {
+                let j = serde_json::to_string(&op).unwrap_or_default();
+                self.w.stream_line('O', j);
+            }
             self.exec_op(&op);
             self.rep.ops_done += 1;
         }
@@ -1600,7 +1604,9 @@ impl<'w, 'r, 'gc> Cb<'w, 'r, 'gc> {
                 let d = tok::drops(t);
                 let w = want.contains(&t) as u8;
                 if d != w {
-                    self.viol("C18.parts", format!("builder {kind:?} {stage:?} (n = {n}): part {} was destructed {d} times, expected {w} (header written: {made_header}, elements initialised: {made_elems})", t - first));
+                    // C11 states the same for a builder abandoned by a panicking element constructor
+                    let al: &[&str] = if matches!(stage, BStage::PanicAt(_)) { &["C11.builder-parts"] } else { &[] };
+                    self.w.violate_with("C18.parts", al, format!("builder {kind:?} {stage:?} (n = {n}): part {} was destructed {d} times, expected {w} (header written: {made_header}, elements initialised: {made_elems})", t - first));
                     return;
                 }
             }
